@@ -151,6 +151,10 @@ func (u *PsipURI) Truncate() {
 func (u *PsipURI) AdjustOffs(newpos PField) bool {
 	offs := newpos.Offs // new start
 	end := offs + newpos.Len
+	if end < offs {
+		// the new position does not fit in the 16 bit offsets
+		return false
+	}
 	if (u.Scheme.Len + u.User.Len + u.Pass.Len + u.Host.Len + u.Port.Len +
 		u.Params.Len + u.Headers.Len) > newpos.Len {
 		if DBGon() {
